@@ -150,6 +150,9 @@ def _b(o):
 
 
 class SymNum:
+    def __format__(self, spec):  # error messages of the analysed code format their operands: never a reason to abort a path
+        return f"<sym {self.t}>"
+
     __slots__ = ("t",)
 
     def __init__(self, t):
